@@ -40,6 +40,10 @@ type connIDManager struct {
 	queueControlFrame         func(wire.Frame)
 
 	closed bool
+
+	// advertisedLimit is the active_connection_id_limit a QUICSpec put on the wire, if it
+	// is larger than protocol.MaxActiveConnectionIDs. See SetConnectionIDLimit. [UQUIC]
+	advertisedLimit uint64
 }
 
 func newConnIDManager(
@@ -65,7 +69,7 @@ func (h *connIDManager) Add(f *wire.NewConnectionIDFrame) error {
 	if err := h.add(f); err != nil {
 		return err
 	}
-	if len(h.queue) >= protocol.MaxActiveConnectionIDs {
+	if len(h.queue) >= h.connectionIDLimit() {
 		return &qerr.TransportError{ErrorCode: qerr.ConnectionIDLimitError}
 	}
 	return nil
